@@ -355,6 +355,18 @@ def shiftEnd (n : Int) (v : List XVal) : List XVal :=
 def mapVals (f : List XVal → List XVal) (slots : List Slot) : List Slot :=
   slots.map (fun sl => sl.map (fun e => { e with vals := f e.vals }))
 
+/-- `v[i]` for an integer index, NaN outside the list -/
+def getZ (v : List XVal) (i : Int) : XVal := if 0 ≤ i then v.getD i.toNat XVal.nan else XVal.nan
+
+/-- value of an equidistant series with first stamp `start` at the stamp `t` (NaN off the grid and
+    outside the series) — the observation `C11_resize_keeps_values` is about -/
+def valueAt (start d : Int) (v : List XVal) (t : Int) : XVal :=
+  if (t - start) % d = 0 then getZ v ((t - start) / d) else XVal.nan
+
+/-- what `resize` does to one series of an equidistant store -/
+def resize1 (d start stop ns ne : Int) (v : List XVal) : List XVal :=
+  shiftEnd (roundDiv (ne - stop) d) (shiftStart (roundDiv (ns - start) d) v)
+
 /-- `resize(start, stop)` as coded (pi.py 1098-1173); `none` = `ValueError` (nonequidistant
     series cannot grow).  `times` / `fcIndex` are left untouched by the code. -/
 def resize (ns ne : Int) (s : Store) : Option Store :=
@@ -369,18 +381,6 @@ def resize (ns ne : Int) (s : Store) : Option Store :=
     some { s with start := ns, stop := ne,
                   slots := mapVals (fun v => shiftEnd b (shiftStart a v)) s.slots }
 
-/-- `v[i]` for an integer index, NaN outside the list -/
-def getZ (v : List XVal) (i : Int) : XVal := if 0 ≤ i then v.getD i.toNat XVal.nan else XVal.nan
-
-/-- value of an equidistant series with first stamp `start` at the stamp `t` (NaN off the grid and
-    outside the series) — the observation `C11_resize_keeps_values` is about -/
-def valueAt (start d : Int) (v : List XVal) (t : Int) : XVal :=
-  if (t - start) % d = 0 then getZ v ((t - start) / d) else XVal.nan
-
-/-- what `resize` does to one series of an equidistant store -/
-def resize1 (d start stop ns ne : Int) (v : List XVal) : List XVal :=
-  shiftEnd (roundDiv (ne - stop) d) (shiftStart (roundDiv (ns - start) d) v)
-
 /-- a sequence of `resize` calls -/
 def resizeSeq : List (Int × Int) → Store → Option Store
   | [], s => some s
@@ -391,9 +391,28 @@ def resizeSeq : List (Int × Int) → Store → Option Store
 
 /-! ## CSV: `%f` printing and parsing -/
 
-/-- the decimal with six digits after the point nearest to `x` (what `"%f" % x` prints and
-    `float()` parses; a binary64 is never exactly half-way, see `Props/C11`) -/
-def round6 (x : Rat) : Rat := ((x * 1000000 + 1 / 2).floor : Rat) / 1000000
+/-- the decimal with six digits after the point nearest to `x`: what `"%f" % x` prints (correctly
+    rounded, ties to even — e.g. `1/128 = 0.0078125` prints as `0.007812`) and `float()` parses -/
+def round6 (x : Rat) : Rat := (pyRound (x * 1000000) : Rat) / 1000000
+
+/-! ## NetCDF time axis (`ExportDataset.write_times` / `ImportDataset.read_import_times`) -/
+
+def minList : List Int → Option Int
+  | [] => none
+  | x :: l => match minList l with
+    | none => some x
+    | some m => some (if x < m then x else m)
+
+/-- values written to the `time` variable and the reference date of its unit string
+    (`seconds since <reference>`); `none`: `np.min` of an empty array raises.
+    `ft` = forecast time in seconds, `fd` = forecast date. -/
+def ncWriteTimes (times : List Int) (ft fd : Int) : Option (List Int × Int) :=
+  match minList times with
+  | none => none
+  | some m => if m < 0 then some (times.map (· - m), fd - (ft - m)) else some (times, fd)
+
+/-- the date-times `num2date` makes of the written axis -/
+def ncReadTimes (w : List Int × Int) : List Int := w.1.map (· + w.2)
 
 /-! ## ParameterConfig -/
 
